@@ -328,6 +328,19 @@ def register(M):
         i = 0 if info['method'] in ('front', 'first_key_value') else len(m.entries) - 1
         return M.some(dty, Adt('(&K, &V)', {(None, 0): Ref(Cell(m.entries[i][0]), ()), (None, 1): Ref(cell, path + (('slot', i),))}))
 
+    @reg('LinkedHashMap::get_refresh')
+    def _(ex, info, a, dty):
+        # linked_hash_map: "Returns the mutable reference corresponding to the key in the map. If value is found, it is
+        # moved to the end of the linked list."
+        cell, path, m = M._map_at(ex, a[0])
+        if m.kind != 'assoc' or not m.d.get('linked'):
+            raise Inconclusive('get_refresh() on %r' % (m,))
+        i = find(ex, m, M.load(ex, a[1]))
+        if i is None:
+            return M.none(dty)
+        ex.write_path(cell, path, m.set(entries=m.entries[:i] + m.entries[i + 1:] + (m.entries[i],)))
+        return M.some(dty, Ref(cell, path + (('slot', len(m.entries) - 1),)))
+
     @reg('LinkedHashMap::pop_front', 'LinkedHashMap::pop_back')
     def _(ex, info, a, dty):
         cell, path, m = M._map_at(ex, a[0])
